@@ -9,11 +9,28 @@ pub struct ExpectedType { pub v: u8 }
 pub struct StringLexError { pub v: u8 }
 pub struct Lexer { pub v: u8 }
 
-/// std::iter::Peekable<Lexer>: opaque; `next` may return anything (no assumption on the token stream)
+/// std::iter::Peekable<Lexer>, modelled as the sequence of items the lexer will still produce (ASSUMED contract of a
+/// std type; the lexer unit proves that this sequence exists: Lexer::next terminates and makes progress).
 pub struct Peekable<T> { pub inner: T }
 impl Peekable<Lexer> {
+    pub uninterp spec fn remaining(&self) -> Seq<Result<Token, LexError>>;
     #[verifier::external_body]
-    pub fn next(&mut self) -> (r: Option<Result<Token, LexError>>) { unimplemented!() }
+    pub fn next(&mut self) -> (r: Option<Result<Token, LexError>>)
+        ensures
+            match r {
+                Some(x) => old(self).remaining().len() > 0 && x == old(self).remaining()[0] && final(self).remaining() == old(self).remaining().skip(1),
+                None => old(self).remaining().len() == 0 && final(self).remaining() == old(self).remaining(),
+            },
+    { unimplemented!() }
+}
+
+/// get_any hands out exactly the next item of the stream (or UnexpectedEOF at its end) and consumes it
+pub open spec fn took_next(before: Seq<Result<Token, LexError>>, after: Seq<Result<Token, LexError>>, r: Result<Token, LexError>) -> bool {
+    if before.len() == 0 {
+        r is Err && r->Err_0 is UnexpectedEOF && after == before
+    } else {
+        r == before[0] && after == before.skip(1)
+    }
 }
 
 impl Position {
